@@ -16,8 +16,8 @@ pub fn root_dir() -> PathBuf {
 }
 
 pub fn maybe_gen_extract(rng: &mut Rng, _tier: Tier, idx: u64) -> Option<Case> {
-    // one in 25 runs is an extraction run (they touch the real file system, ~1 ms each)
-    if idx % 25 != 7 {
+    // one in 5 runs is an extraction run (they touch the real file system, ~1 ms each)
+    if idx % 5 != 2 {
         return None;
     }
     let mut r = rng.sub("extract");
@@ -58,9 +58,10 @@ pub fn maybe_gen_extract(rng: &mut Rng, _tier: Tier, idx: u64) -> Option<Case> {
                 let l = if f == "empty.bin" || r.chance(1, 8) {
                     0
                 } else {
-                    match r.below(3) {
+                    match r.below(4) {
                         0 => r.urange(1, 20),
                         1 => r.urange(21, 3000),
+                        2 => r.urange(1000, 6000),
                         _ => r.urange(60_000, 140_000),
                     }
                 };
